@@ -15,7 +15,10 @@
                                              sendCh <- event
      send loop session.go send (440-465):    <-sendCh ; for !CAS writing 0->1 { <-notifyContinueWriteCh } ;
                                              eventConn.write ; store writing 0
-     consumer  protocol_manager.go handlePolling (257-288) + queue.go markNotWorking (292-299), entered
+     consumer  protocol_manager.go: a fallback-data / stream-close event (handleFallbackData,
+               handleStreamClose) first empties the queue (consumeRecvQueue: pop until empty) WITHOUT
+               touching the flag, then handles its own item;
+               handlePolling + queue.go markNotWorking, entered
                once per polling event taken from the connection (single event-loop thread):
                  loop { loop { pop: load head; load tail; empty -> break; (slot reads); FAA head }
                         (runtime.Gosched)  store flag 0 ; load tail ; load head ;
@@ -35,7 +38,8 @@ Inductive op := OpSend | OpOther.           (* put + wakeUpPeer  |  waitForSend 
 Inductive ppc := PIdle | PMark | PWr | PSlow | PEv | PRel | PNotify.
 Record plocal := { pc : ppc; todo : list op; nsent : nat (* ghost: finished operations *) }.
 
-Inductive cpc := CIdle | CPopH | CPopT (h : Z) | CPopInc | CStore0 | CSizeT | CSizeH (t : Z) | CStore1.
+Inductive cpc := CIdle | CPopH | CPopT (h : Z) | CPopInc | CStore0 | CSizeT | CSizeH (t : Z) | CStore1
+               | CDrH | CDrT (h : Z) | CDrInc.   (* the drain in front of a fallback-data / stream-close event *)
 Inductive spc := SIdle | SCas (e : sev) | SWait (e : sev) | SWrite (e : sev) | SRel.
 
 Record st := {
@@ -105,8 +109,11 @@ Definition cstep (s : st) : st :=
   | CIdle => match sock s with
              | [] => s
              | EPoll :: r => inc_handled (set_cons CPopH (set_sock r s))
-             | EOther :: r => set_sock r s
+             | EOther :: r => set_cons CDrH (set_sock r s)
              end
+  | CDrH => set_cons (CDrT (head s)) s
+  | CDrT h => if h >=? tail s then set_cons CIdle s else set_cons CDrInc s
+  | CDrInc => set_cons CDrH (set_head (head s + 1) s)
   | CPopH => set_cons (CPopT (head s)) s
   | CPopT h => if h >=? tail s then set_cons CStore0 s else set_cons CPopInc s
   | CPopInc => set_cons CPopH (set_head (head s + 1) s)
@@ -165,7 +172,7 @@ Definition ev k c a b d := Some {| ek := k; ecell := c; ea := a; eb := b; ec := 
 Definition kR := 0. Definition kW := 1. Definition kFAA := 2. Definition kCAS := 3. Definition kBusy := 5.
 (* cells outside the queue mapping: the harness names them with these numbers *)
 Definition cell_writing := -10. Definition cell_sock := -11. Definition cell_sendch := -12. Definition cell_notif := -13.
-Definition code (e : sev) : Z := match e with EPoll => c_typePolling | EOther => c_typeFallbackData end.
+Definition code (e : sev) : Z := match e with EPoll => c_typePolling | EOther => c_typeStreamClose end.
 Definition b2z (b : bool) : Z := if b then 1 else 0.
 
 Definition pev (i : nat) (s : st) : option event :=
@@ -200,6 +207,9 @@ Definition cev (s : st) : option event :=
   | CSizeT => ev kR off_map_queue_tail (tail s) 0 0
   | CSizeH _ => ev kR off_map_queue_head (head s) 0 0
   | CStore1 => ev kW off_map_queue_workingFlag 1 0 0
+  | CDrH => ev kR off_map_queue_head (head s) 0 0
+  | CDrT _ => ev kR off_map_queue_tail (tail s) 0 0
+  | CDrInc => ev kFAA off_map_queue_head 1 (head s + 1) 0
   end.
 
 Definition sev_ (s : st) : option event :=
